@@ -138,6 +138,7 @@ type machine struct {
 	wgs       map[*value]*int
 	syncMaps  map[*value]*omap
 	timerObjs map[*value]*vtimer
+	ptrIDs    map[*value]int
 	symMapOrder bool
 	probeName string
 }
@@ -384,10 +385,13 @@ func (m *machine) branch(c *smt.Term) bool {
 		m.addPC(c)
 		return true
 	case tOK:
-		// implied: no decision recorded, but remember the fact
+		// implied: recorded with arity 1 so that re-execution follows it
+		// without consuming a decision that belongs to a later point
+		m.record(Decision{Kind: DBranch, N: 1, Chosen: 0})
 		m.addPC(c)
 		return true
 	default:
+		m.record(Decision{Kind: DBranch, N: 1, Chosen: 1})
 		m.addPC(nc)
 		return false
 	}
@@ -523,6 +527,7 @@ func (m *machine) chooseAmong(kind byte, conds []*smt.Term, what string) int {
 		m.abort("inconclusive", "%s: no feasible alternative", what)
 	}
 	if len(feas) == 1 {
+		m.record(Decision{Kind: kind, N: 1, Chosen: feas[0]})
 		m.addPC(conds[feas[0]])
 		return feas[0]
 	}
